@@ -8,6 +8,7 @@ reported value; the tableau flips the value but not the offset), S-SPLIT reader 
 (no solver entry returns Ok without consulting the rows).  Status handling is C15.
 Not decided: that the back-ends' numbers satisfy the rows within 1e-6.
 """
+import re
 from facts import norm, base_ty, walk, strip, sexp
 from flow import LocalFlow, pat_binds, free_locals
 import table
@@ -200,7 +201,16 @@ def h_columns(F, R):
             R.ob("H-COLUMNS", p + ":anchor", False, "", "solver entry not found")
             continue
         R.fn(p)
-        bad = [(n["name"], n.get("l")) for n in walk(f["body"]) if n.get("k") == "MCall" and n["name"] in ORDER_BREAKERS]
+        # only adapters applied to a sequence that is indexed like the columns (variables, domains, coefficients, values):
+        # `.filter` on an Option, or on the list of row names, does not move a column
+        def columnar(n):
+            if base_ty(F.ty(strip(n["recv"])) or "").endswith("option::Option"):
+                return False
+            root = n
+            while root.get("k") == "MCall":
+                root = strip(root["recv"])
+            return re.search(r"variables|domain|coefficients|objective|values|assignment", sexp(n["recv"])) is not None
+        bad = [(n["name"], n.get("l")) for n in walk(f["body"]) if n.get("k") == "MCall" and n["name"] in ORDER_BREAKERS and columnar(n)]
         R.ob("H-COLUMNS", p + ":no-reordering", not bad, F.loc(f), "order-changing/filtering adapters between the model's variable list and the solver columns: %s" % bad)
         # one unconditional push of a column per variable inside the loop over the variables
         ok = False
